@@ -535,6 +535,109 @@ fn apply_filter_with_tagged_argument_value<'query, Vertex: Debug + Clone + 'quer
     }
 }
 
+/// Verification hooks (guard: `--cfg trustfall_verif`). Add-only; not part of the public API.
+#[cfg(trustfall_verif)]
+pub mod __verif {
+    use super::*;
+    use crate::ir::{Type, VariableRef};
+
+    /// Calls one of the binary operator functions of this module directly.
+    pub fn op_direct(name: &str, l: &FieldValue, r: &FieldValue) -> bool {
+        match name {
+            "equals" => equals(l, r),
+            "less_than" => less_than(l, r),
+            "less_than_or_equal" => less_than_or_equal(l, r),
+            "greater_than" => greater_than(l, r),
+            "greater_than_or_equal" => greater_than_or_equal(l, r),
+            "has_substring" => has_substring(l, r),
+            "has_prefix" => has_prefix(l, r),
+            "has_suffix" => has_suffix(l, r),
+            "one_of" => one_of(l, r),
+            "contains" => contains(l, r),
+            "regex_matches_slow_path" => regex_matches_slow_path(l, r),
+            _ => panic!("verif hook: unknown operator function {name}"),
+        }
+    }
+
+    fn make_op<'a>(name: &str, a: &'a Argument) -> Operation<(), &'a Argument> {
+        match name {
+            "is_null" => Operation::IsNull(()),
+            "is_not_null" => Operation::IsNotNull(()),
+            "=" => Operation::Equals((), a),
+            "!=" => Operation::NotEquals((), a),
+            "<" => Operation::LessThan((), a),
+            "<=" => Operation::LessThanOrEqual((), a),
+            ">" => Operation::GreaterThan((), a),
+            ">=" => Operation::GreaterThanOrEqual((), a),
+            "contains" => Operation::Contains((), a),
+            "not_contains" => Operation::NotContains((), a),
+            "one_of" => Operation::OneOf((), a),
+            "not_one_of" => Operation::NotOneOf((), a),
+            "has_prefix" => Operation::HasPrefix((), a),
+            "not_has_prefix" => Operation::NotHasPrefix((), a),
+            "has_suffix" => Operation::HasSuffix((), a),
+            "not_has_suffix" => Operation::NotHasSuffix((), a),
+            "has_substring" => Operation::HasSubstring((), a),
+            "not_has_substring" => Operation::NotHasSubstring((), a),
+            "regex" => Operation::RegexMatches((), a),
+            "not_regex" => Operation::NotRegexMatches((), a),
+            _ => panic!("verif hook: unknown operation {name}"),
+        }
+    }
+
+    fn dummy_arg() -> Argument {
+        Argument::Variable(VariableRef {
+            variable_name: "x".into(),
+            variable_type: Type::new_named_type("String", true),
+        })
+    }
+
+    fn one_ctx(left: FieldValue, active: bool) -> DataContext<()> {
+        let mut ctx = DataContext::<()>::new(if active { Some(()) } else { None });
+        ctx.values.push(left);
+        ctx
+    }
+
+    /// Runs the real static-argument dispatch table on a single context whose value stack holds
+    /// `left`; returns whether the context survives the filter.
+    pub fn dispatch_static(op: &str, left: FieldValue, right: FieldValue, active: bool) -> bool {
+        let arg = dummy_arg();
+        let operation = make_op(op, &arg);
+        let it: ContextIterator<'static, ()> = Box::new(std::iter::once(one_ctx(left, active)));
+        apply_filter_with_static_argument_value(&operation, right, it).next().is_some()
+    }
+
+    /// Same for the tagged-argument dispatch table; `right = None` is a tag from a missing
+    /// `@optional` scope.
+    pub fn dispatch_tagged(
+        op: &str,
+        left: FieldValue,
+        right: Option<FieldValue>,
+        active: bool,
+    ) -> bool {
+        let arg = dummy_arg();
+        let operation = make_op(op, &arg);
+        let tagged = match right {
+            Some(v) => TaggedValue::Some(v),
+            None => TaggedValue::NonexistentOptional,
+        };
+        let it: ContextOutcomeIterator<'static, (), TaggedValue> =
+            Box::new(std::iter::once((one_ctx(left, active), tagged)));
+        apply_filter_with_tagged_argument_value(&operation, it).next().is_some()
+    }
+
+    /// The unary-operator path; `None` when the operation is not unary.
+    pub fn dispatch_unary(op: &str, left: FieldValue, active: bool) -> Option<bool> {
+        let arg = dummy_arg();
+        let operation = make_op(op, &arg);
+        let it: ContextIterator<'static, ()> = Box::new(std::iter::once(one_ctx(left, active)));
+        match attempt_apply_unary_filter(&operation, it) {
+            Ok(mut out) => Some(out.next().is_some()),
+            Err(_) => None,
+        }
+    }
+}
+
 #[cfg(test)]
 mod tests {
     use std::sync::Arc;
